@@ -3,7 +3,7 @@ import numpy as np
 from lib import common as C, het as H
 
 GEN = ['HetFacts']
-IMPORTS = ['C08/kernel_weights', 'C08/lottery_1d_laws', 'C08/lottery_2d_laws', 'C08/markov_laws', 'C08/combined_shock_product_rule', 'C17/robust_bracket', 'C17/coord_reproduces_query', 'C17/monotone_equals_robust']
+IMPORTS = ['C08/kernel_weights', 'C08/lottery_1d_laws', 'C08/lottery_2d_laws', 'C08/markov_laws', 'C08/multidim_index_algebra', 'C08/combined_shock_product_rule', 'C17/robust_bracket', 'C17/coord_reproduces_query', 'C17/monotone_equals_robust']
 TRUSTED = ['C08 (transition operators), C09 (loops)']
 ASSUMPTIONS = ['the Coq theorems state that two loops presenting the same step and expectation operators record the same values, and that dimension-wise Markov transitions equal the '
                'Kronecker-product transition (all sizes); that HetBlock and StageBlock present the same operators is checked by paired runs on the implementation',
